@@ -276,7 +276,9 @@ def run_c18(tier, seed, procs=16):
         for mode in ("full-pass", "each-object-alone", "random-subset", "read-explain-export"):
             items.append((tname, spec, None, mode))
             idxs = range(n) if tier == "thorough" else [i for i in range(n) if (i + seed) % 6 == 0]
-            if mode in ("full-pass", "each-object-alone"):
+            if mode == "full-pass":
+                for i in range(n): items.append((tname, spec, i, mode))       # every single edit, then a second pass
+            elif mode == "each-object-alone":
                 for i in idxs: items.append((tname, spec, i, mode))
         # histories of two edits (e.g. two different inputs of one attribute edited in turn), then a full second pass
         nn = len(H.numeric_edits(spec))
